@@ -1,7 +1,7 @@
 //! C05 — statement and context binding: a proof verifies only for its own statement.
 use crate::choices::Choices;
 use crate::curves::{Curve, CurveTag};
-use crate::drive::{pc_gens, run_prover, run_verifier, ProveOpts, VerifyOpts};
+use crate::drive::{pc_gens, run_batch, run_prover, run_verifier, BatchMember, ProveOpts, VerifyOpts};
 use crate::program::{gen_program, Cap, GenCfg, Op, Program, Sc, Var, TLABELS, ULABELS};
 use crate::props::c02::{constrain_sites, list_mut, lists, ListRef};
 use crate::props::c08::rand_point;
@@ -396,6 +396,66 @@ fn case<G: CurveTag>(bytes: &[u8], col: &mut Collector) -> Result<(), Failure> {
     if v.panic.is_some() {
         col.note("verifier panicked instead of rejecting (left to C08)");
     }
+    // the same holds when the deviated statement is checked through batch verification:
+    // alone, beside the honest instance, and together with a second deviation that would
+    // cancel the first one if the instances were not weighted independently
+    if d.pc.is_none() {
+        let honest = BatchMember { prog: &prog, commitments: &p.commitments, proof };
+        let dev = BatchMember { prog: &d.prog, commitments: &d.commitments, proof };
+        let mut batches: Vec<(&str, Vec<BatchMember<G>>)> = vec![
+            ("alone", vec![BatchMember { prog: &d.prog, commitments: &d.commitments, proof }]),
+            ("beside-the-honest-instance", vec![honest, dev]),
+        ];
+        // opposite constant deviations on the same constraint (only for plain constant changes)
+        let mut opposite: Option<Program> = None;
+        if d.kind == "constraint-changed:constant" || d.kind == "violated-constraint-added" {
+            let mut o = d.prog.clone();
+            let mut done = false;
+            let flip = |e: &ScalarSpec| -> Option<ScalarSpec> {
+                Some(match e {
+                    ScalarSpec::One => ScalarSpec::MinusOne,
+                    ScalarSpec::MinusOne => ScalarSpec::One,
+                    ScalarSpec::Small(k) => ScalarSpec::NegSmall(*k),
+                    ScalarSpec::NegSmall(k) => ScalarSpec::Small(*k),
+                    _ => return None,
+                })
+            };
+            for l in lists(&o) {
+                for op in list_mut(&mut o, l).iter_mut() {
+                    if let Op::Constrain { err: Some(e), .. } = op {
+                        if let Some(f) = flip(e) {
+                            *e = f;
+                            done = true;
+                        }
+                    }
+                }
+            }
+            if done {
+                opposite = Some(o);
+            }
+        }
+        if let Some(o) = opposite.as_ref() {
+            batches.push((
+                "with-the-opposite-deviation",
+                vec![BatchMember { prog: &d.prog, commitments: &d.commitments, proof }, BatchMember { prog: o, commitments: &d.commitments, proof }],
+            ));
+        }
+        for (name, members) in batches {
+            let (r, pn) = run_batch::<G>(&members, 256, chi.byte() as u64);
+            if pn.is_some() {
+                col.note("batch_verify panicked (left to C08)");
+                continue;
+            }
+            if matches!(r, Some(Ok(()))) {
+                return Err(Failure::new(
+                    format!("C05:batch-accepted:{}:{}", d.kind.split(':').next().unwrap_or(""), name),
+                    format!("batch verification ({}) accepted a proof for a statement it was not made for: {}", name, d.kind),
+                    json!({"proved_statement": prog.to_json(), "verifier_statement": d.prog.to_json(), "deviation": d.kind, "batch": name}),
+                ));
+            }
+            col.class(&format!("batch:{}", name));
+        }
+    }
     let k = d.kind.split('(').next().unwrap_or("").to_string();
     col.class(&format!("dev:{}", k));
     col.nontrivial(fp_of(&(prog.fingerprint(), d.kind.clone())));
@@ -432,7 +492,7 @@ pub fn run(tier: &str, seed: u64) -> i32 {
         ("dev:different-commitment:V+B", 0.003), ("dev:extra-commitment:fresh:appended", 0.005), ("dev:extra-commitment:duplicate:appended", 0.003), ("dev:missing-commitment", 0.01),
         ("dev:reordered-commitments", 0.005), ("dev:constraint-changed:constant", 0.02), ("dev:constraint-changed:coefficient-on-committed-value", 0.01),
         ("dev:transcript-label", 0.02), ("dev:pre-construction-data:added", 0.01), ("dev:construction-data:changed:phase1", 0.003), ("dev:construction-data:dropped:phase1", 0.003),
-        ("dev:construction-data:added:phase2", 0.003), ("dev:blinding-base", 0.02), ("dev:value-base:with-gates", 0.02), ("interchange", 0.03),
+        ("dev:construction-data:added:phase2", 0.003), ("dev:blinding-base", 0.02), ("dev:value-base:with-gates", 0.02), ("interchange", 0.03), ("batch:beside-the-honest-instance", 0.2), ("batch:with-the-opposite-deviation", 0.01),
     ] {
         rep.required_classes.push((c.to_string(), f));
     }
